@@ -434,53 +434,53 @@ func oneHistory(rng *hx.Rng) (h hist, err error) {
 	h.Ops = append([]hOp{}, rec.ops...)
 	rec.closed = true
 	rec.mu.Unlock()
-	// collect the signals: expected number from the results, then a grace period for surplus ones
-	want := 0
+	// collect the signals: wait for as many as the results call for (long deadline: the
+	// subscriber's reader goroutine may be scheduled late on a loaded machine), then a short
+	// grace period for surplus ones
+	readyOk, unregOk := map[uint32]bool{}, map[uint32]bool{}
 	for _, o := range h.Ops {
-		if o.Tid != 0 && o.Op.Kind == opReady && o.Res.Kind == rOk && o.Ret != 0 {
+		if o.Tid == 0 || o.Ret == 0 {
+			continue
+		}
+		if o.Op.Kind == opReady && o.Res.Kind == rOk {
+			readyOk[o.Op.ID] = true
+		}
+		if o.Op.Kind == opUnregister && o.Res.Kind == rOk {
+			unregOk[o.Op.ID] = true
+		}
+	}
+	want := len(readyOk)
+	for id := range unregOk {
+		if readyOk[id] {
 			want++
 		}
 	}
-	deadline := time.After(700 * time.Millisecond)
-	grace := time.After(25 * time.Millisecond)
+	take := func(m *net.Message) {
+		r := bytesReader{m.Payload}
+		id, err1 := basic.ReadUint32(&r)
+		name, err2 := basic.ReadString(&r)
+		if err1 == nil && err2 == nil {
+			h.Events = append(h.Events, dEvent{Added: m.Header.Action == 106, ID: id, Name: name})
+		}
+	}
+	deadline := time.After(3 * time.Second)
 collect:
+	for len(h.Events) < want {
+		select {
+		case m := <-evq:
+			take(m)
+		case <-deadline:
+			break collect
+		}
+	}
+	grace := time.After(20 * time.Millisecond)
+surplus:
 	for {
 		select {
 		case m := <-evq:
-			var e dEvent
-			r := bytesReader{m.Payload}
-			id, err1 := basic.ReadUint32(&r)
-			name, err2 := basic.ReadString(&r)
-			if err1 != nil || err2 != nil {
-				continue
-			}
-			e = dEvent{Added: m.Header.Action == 106, ID: id, Name: name}
-			h.Events = append(h.Events, e)
+			take(m)
 		case <-grace:
-			added := 0
-			for _, e := range h.Events {
-				if e.Added {
-					added++
-				}
-			}
-			if added >= want {
-				// every serviceAdded arrived; serviceRemoved frames were sent before their
-				// replies, so the same grace covers them
-				select {
-				case <-time.After(15 * time.Millisecond):
-				}
-				for len(evq) > 0 {
-					m := <-evq
-					r := bytesReader{m.Payload}
-					id, _ := basic.ReadUint32(&r)
-					name, _ := basic.ReadString(&r)
-					h.Events = append(h.Events, dEvent{Added: m.Header.Action == 106, ID: id, Name: name})
-				}
-				break collect
-			}
-			grace = time.After(25 * time.Millisecond)
-		case <-deadline:
-			break collect
+			break surplus
 		}
 	}
 	for _, c := range clients {
